@@ -44,6 +44,9 @@ BOX = [[a, b] for a in range(4) for b in range(4)]
 
 GEN = {'pure': True, 'tracer': False, 'try': False, 'with': False, 'del': False, 'unbound_reads': False, 'lambdas': False,
        'globals': False, 'nonlocals': False, 'iterators': False, 'helpers': 0, 'init_all': True, 'def_extras': 0,
+       # jumps are covered exhaustively by the enumerated skeletons: the random part leans towards closures that outlive
+       # their name / defs at drawn positions of compound statements (state completeness through closure liveness)
+       'shape_escape': 7, 'shape_defpos': 3,
        'excl': ('no_for_target_rebind', 'no_impure_chain_middle', 'no_all_branch_rebind_in_nested_block')}
 
 
